@@ -83,7 +83,17 @@ class SimLoop(asyncio.BaseEventLoop):
             ready.rotate(idx)
         if handle._cancelled:
             return
-        handle._run()
+        try:
+            handle._run()
+        except (KeyboardInterrupt, SystemExit) as exc:
+            # asyncio stores the interruption on the task and lets it escape the loop as well; if the step belonged to
+            # the main task that is the end of the run, otherwise the simulation carries on so that whoever awaits
+            # the helper task sees the interruption there (and a check can say whether it reached the caller)
+            owner = getattr(handle._callback, "__self__", None)
+            if not isinstance(owner, asyncio.tasks._PyTask) or owner is getattr(self, "main_task", None):
+                raise
+            self.loop_escapes = getattr(self, "loop_escapes", 0) + 1
+            del exc
         if self.after_step is not None:
             owner = getattr(handle._callback, "__self__", None)
             if isinstance(owner, asyncio.tasks._PyTask):
@@ -115,6 +125,7 @@ def run(clock, main_factory, chooser=None, step_cap: int = 200_000):
         events._set_running_loop(None)
         coro = main_factory(loop)
         task = loop.create_task(coro, name="sim-main")
+        loop.main_task = task
         try:
             loop.run_until_complete(task)
         except SimDeadlock:
